@@ -9,6 +9,7 @@ import MC.Model.Highlight
 import MC.Spec.BrailleFinal
 import MC.Model.Numbers
 import MC.Spec.Rows
+import MC.Spec.Canon
 open Lean
 
 namespace MC.Driver
@@ -244,7 +245,34 @@ def handleRows (op : String) (req : Json) : Option Json :=
     some <| okJ <| Json.arr ((MC.Spec.Rows.violations t).map fun v => toJson v).toArray
   | _ => none
 
-def handlers : List (String → Json → Option Json) := [handleVariant, handlePreproc, handlePrefs, handleNav, handleTts, handleIntent, handleHighlight, handleBrailleFinal, handleNumbers, handleRows]
+/-- C01 / C02 / C09 ops -/
+partial def nodeOfJson : Json → MC.Xml.Node
+  | .str t => .text (cps t)
+  | j =>
+    let attrs := (arrOf j "a").toList.map fun p =>
+      let a := p.getArr?.toOption.getD #[]
+      (cps (((a[0]?.getD Json.null).getStr?).toOption.getD ""), cps (((a[1]?.getD Json.null).getStr?).toOption.getD ""))
+    .elem (cps (getStr j "n")) attrs ((arrOf j "c").toList.map nodeOfJson)
+
+def handleCanon (op : String) (req : Json) : Option Json :=
+  match op with
+  | "canon_check" =>
+    let inp := nodeOfJson ((req.getObjVal? "inp").toOption.getD Json.null)
+    let out := nodeOfJson ((req.getObjVal? "out").toOption.getD Json.null)
+    let vi := MC.Spec.Canon.norm (MC.Spec.Canon.visibleIn inp)
+    let vo := MC.Spec.Canon.norm (MC.Spec.Canon.visibleOut out)
+    some <| okJ <| Json.mkObj [("conserves", toJson (vi == vo)), ("vis_in", toJson (ofCps vi)), ("vis_out", toJson (ofCps vo)),
+      ("wf", Json.arr ((MC.Spec.Canon.wfViolations out).map fun v => toJson v).toArray),
+      ("ids", Json.arr ((MC.Spec.Canon.idViolations out).map fun v => toJson v).toArray)]
+  | "escape" => some <| okJ <| toJson (ofCps (MC.Xml.escape (cps (getStr req "text"))))
+  | "norm_text" => some <| okJ <| toJson (ofCps (MC.Spec.Canon.norm (cps (getStr req "text"))))
+  | "add_ids" =>
+    let t := nodeOfJson ((req.getObjVal? "tree").toOption.getD Json.null)
+    let r := (MC.Xml.addIds (cps (getStr req "prefix")) 0 [] t).1
+    some <| okJ <| Json.arr ((MC.Spec.Canon.allIds r).map fun i => match i with | some x => toJson (ofCps x) | none => Json.null).toArray
+  | _ => none
+
+def handlers : List (String → Json → Option Json) := [handleVariant, handlePreproc, handlePrefs, handleNav, handleTts, handleIntent, handleHighlight, handleBrailleFinal, handleNumbers, handleRows, handleCanon]
 
 def handle (req : Json) : Json :=
   let op := getStr req "op"
